@@ -4,6 +4,7 @@ CONSTANTS
   P = 11
   IdSeq <- Ids3
   Coefs = {0, 1, 4, 10}
+  FreshRedeal = FALSE
   HSet = {2, 7}
-INVARIANTS TypeOK ShareValid GpkAgree RecoverUnique AnySubsetAnyOrder VerifiesUnderGpk
+INVARIANTS TypeOK ShareValid GpkAgree RecoverUnique AnySubsetAnyOrder VerifiesUnderGpk PiecesOnOnePolynomial GpkAllEqual
 CHECK_DEADLOCK FALSE
